@@ -533,7 +533,10 @@ def step (st : State) (line : String) : State × String :=
         ({ st with entries := st.entries ++ [e], hasBatch := true }, "ok" ++ ids)
     | _, _ => (st, "bad-op")
   | 9, ["go", m, j] =>
-    match (m == "run" || m == "code"), prefixedNat? "j=" j with
+    -- `block`: the system is driven by `block_on` (which polls the controller like `run` does: it was spawned
+    -- on the system's LocalSet at construction) and `run_with_code` is called afterwards — the same
+    -- behaviours as `code`; no arbiters created by a batch in this mode
+    match (m == "run" || m == "code" || (m == "block" && st.entries.all (·.news == 0))), prefixedNat? "j=" j with
     | true, some j =>
       if !st.entries.any (·.hasStop) then (st, "bad-op")
       else ({ st with done := true }, observeC09 st (m == "run") j log)
